@@ -9,7 +9,9 @@ for d in sorted(glob.glob("/verif/seeded/*/")):
     caught = [k for k, v in checks.items() if v.startswith("caught")]
     missed = [k for k, v in checks.items() if v.startswith("missed")]
     rows.append((name, m.get("property"), (m.get("title") or "")[:90], (m.get("needs_to_manifest") or "")[:220].replace("\n", " "),
-                 ", ".join(caught) or "-", ", ".join(missed) or "-", (m.get("suite_confirmed_here") or {}).get("exit", "?"), m.get("note", "")))
+                 ", ".join(caught) or "-", ", ".join(missed) or "-", (m.get("suite_confirmed_here") or {}).get("exit", "?"),
+                 "; ".join(x for x in [("missed first by " + ",".join(m["missed_before_strengthening"])) if m.get("missed_before_strengthening") else "",
+                                       m.get("strengthening", ""), m.get("note", "")] if x)))
 with open("/verif/seeded/INDEX.md", "w") as fh:
     fh.write("# Seeded changes (sensitivity of the checks)\n\nEach directory holds `patch.diff` (applies to /repo HEAD), `demo.py` (exits 0 on the "
              "unmodified library, non-zero with the change) and `meta.json`.  Produced by independent sub-agents that saw only the property text; "
